@@ -231,8 +231,36 @@ func (h *storeHist) step() {
 			hi, _ := k.M.Max()
 			if (!nonEmpty || (h.inWindow(s.Spec, lo) && h.inWindow(s.Spec, hi))) && h.budget.Charge(k.M.Total()) {
 				h.kept = h.kept[1:]
+				if k.Uses < 3 && r.P(0.5) {
+					// a message may be consumed more than once (by this store again or by another one): what its
+					// first consumer does afterwards must not reach it
+					h.kept = append(h.kept, k)
+				}
+				if r.P(0.3) {
+					// into an empty receiver (cleared, or new): nothing to add to, the message's content could be taken over as is
+					if r.Bool() || !h.checked(s.Spec) {
+						s.Clear()
+					} else {
+						t := mon.NewMonStore(h.c, s.Spec, h.name())
+						h.c.Logf("%s := new %s", t.Name, s.Spec)
+						h.pool = append(h.pool, t)
+						h.main = t
+						s = t
+					}
+					h.c.Count("proto.kept_message_into_empty_receiver", 1)
+				}
+				if k.Uses > 0 {
+					h.c.Count("proto.kept_message_consumed_again", 1)
+				}
+				k.Uses++
 				s.MergeKeptProto(k)
 				h.c.Count("proto.kept_message_consumed_later", 1)
+				if nonEmpty && r.P(0.5) {
+					// the consumer goes on in place, in bins the message holds
+					for i := 0; i < r.Range(1, 3); i++ {
+						s.AddWithCount(lo+r.Intn(hi-lo+1), h.budget.Weight(r, 6, 1))
+					}
+				}
 			}
 		} else if h.budget.Charge(s.M.Total()) {
 			h.kept = append(h.kept, s.ProtoKeep())
